@@ -34,6 +34,8 @@ func runC14(c *Ctx, r *Report) {
 	c14Region(c, r, "C14.R6")
 	c14Clock(c, r, "C14.R7")
 	c14Tables(c, r, "C14.R8")
+	c14Siblings(c, r, "C14.R9")
+	c14Transport(c, r, "C14.R10")
 }
 
 // fieldAccesses returns for every function the struct fields it loads and stores.
